@@ -1,0 +1,23 @@
+//go:build verif
+
+package kafka
+
+// Add-only export file for the verification harness in /verif (build tag
+// "verif").  Nothing here is compiled into normal builds.
+
+// VerifMurmur2 exposes the unexported murmur2 hash.
+func VerifMurmur2(data []byte) uint32 { return murmur2(data) }
+
+// VerifSetCounter presets the round-robin counter (to replay the uint32 wrap).
+func (rr *RoundRobin) VerifSetCounter(c uint32) {
+	rr.mutex.Lock()
+	rr.counter = c
+	rr.mutex.Unlock()
+}
+
+// VerifCounter reads the round-robin counter.
+func (rr *RoundRobin) VerifCounter() uint32 {
+	rr.mutex.Lock()
+	defer rr.mutex.Unlock()
+	return rr.counter
+}
